@@ -28,6 +28,7 @@ type c12Case struct {
 	CancelInWait int           // cancel it CancelAfter after the end of attempt k (0: never)
 	CancelAfter  time.Duration //
 	Class        string
+	CtxErr       bool // the handler's errors wrap context.DeadlineExceeded / context.Canceled (a call of its own timed out): errors like any other
 }
 
 func (cs c12Case) cfg() map[string]any {
@@ -76,6 +77,9 @@ func runC12(c *Ctx) error {
 					FailN: fn, Class: "plain"})
 			}
 		}
+	}
+	for _, fn := range []int{-1, 1, 2} {
+		cases = append(cases, c12Case{MaxRetries: 3, Initial: 2 * ms, MaxI: 10 * ms, MNum: 2, MDen: 1, RFNum: 0, RFDen: 1, FailN: fn, Class: "plain", CtxErr: true})
 	}
 	nplain := len(cases)
 	// context ends while retries remain
@@ -224,6 +228,14 @@ func goid() uint64 {
 	return id
 }
 
+type c12CtxErr struct {
+	text  string
+	inner error
+}
+
+func (e c12CtxErr) Error() string { return e.text }
+func (e c12CtxErr) Unwrap() error { return e.inner }
+
 func c12Run(r *tr.Run, cs c12Case) { c12RunShared(r, cs, nil) }
 
 func c12RunShared(r *tr.Run, cs c12Case, sh *c12Shared) { c12RunOn(r, cs, sh, nil) }
@@ -263,6 +275,9 @@ func c12RunOn(r *tr.Run, cs c12Case, sh *c12Shared, given *message.Message) {
 		} else {
 			errID = fmt.Sprintf("e%d", k)
 			err = fmt.Errorf("%s", errID)
+			if cs.CtxErr {
+				err = c12CtxErr{errID, []error{context.DeadlineExceeded, context.Canceled}[k%2]}
+			}
 			// failed attempts may carry messages too; they must never be reported as a success
 			outs = []*message.Message{message.NewMessage(fmt.Sprintf("x%d", k), nil)}
 		}
